@@ -24,12 +24,29 @@ partial def valOfJson (j : Json) : R PyVal := do
   | "opaque" => return .opaque
   | t => throw s!"unknown value tag {t}"
 
+def rawOfJson (j : Json) : R Raw := do
+  match ← asStr (← idx j 0) with
+  | "dict" => return .dict (← asNat (← idx j 1))
+  | "list" => return .list (← asNat (← idx j 1))
+  | "str" => return .str (← asStr (← idx j 1))
+  | "int" => return .int (← asInt (← idx j 1))
+  | "bool" => return .bool (← asBool (← idx j 1))
+  | t => throw s!"unknown raw tag {t}"
+
+/-- `["none"] | ["mod", truthy, v] | ["raises", truthy, e] | ["invalid", raw]`; the older forms
+    `["mod", v]`, `["raises", e]`, `["invalid"]` (truthy objects, a non-empty dict) are still read -/
 def modOfJson (j : Json) : R ModSpec := do
+  let n := (← asArr j).length
   match ← asStr (← idx j 0) with
   | "none" => return .none
-  | "mod" => return .mod (← valOfJson (← idx j 1))
-  | "raises" => return .raises (← asStr (← idx j 1))
-  | "invalid" => return .invalid
+  | "mod" =>
+    if n == 2 then return .mod true (← valOfJson (← idx j 1))
+    else return .mod (← asBool (← idx j 1)) (← valOfJson (← idx j 2))
+  | "raises" =>
+    if n == 2 then return .raises true (← asStr (← idx j 1))
+    else return .raises (← asBool (← idx j 1)) (← asStr (← idx j 2))
+  | "invalid" =>
+    if n == 1 then return .invalid (.dict 1) else return .invalid (← rawOfJson (← idx j 1))
   | t => throw s!"unknown module tag {t}"
 
 def dictOfJson (j : Json) : R ModDict :=
@@ -143,10 +160,8 @@ def prepOutOfJson (j : Json) : R PrepOut := do
   return ⟨← listOf evOfJson (← fld j "trace"), ← errOfJson (← fld j "err"), ← targetOfJson (← fld j "target")⟩
 
 def prepInOfJson (j : Json) : R PrepIn := do
-  let logName ← match fldD j "log" Json.null with
-    | .null => pure none
-    | l => do pure (some (← asStr l))
-  return ⟨← targetOfJson (← fld j "target"), ← strF j "input", logName⟩
+  return ⟨← targetOfJson (← fld j "target"), ← strF j "input", ← strF j "cwd", ← strF j "name",
+          ← strF j "logfile"⟩
 
 /-- spec verdict on the implementation's own output, `false` when the harness could not observe one -/
 def onImpl {α} (j : Json) (parse : Json → R α) (spec : α → Bool) : Bool :=
@@ -186,7 +201,7 @@ def handle (j : Json) : R Json := do
       ("spec", jObj [("accepts", toJson (specAccepts p)),
                      ("model_ok", toJson (specPrepare p o)),
                      ("impl_ok", toJson (onImpl j prepOutOfJson (specPrepare p)))]),
-      ("scope", toJson true)]
+      ("scope", toJson p.WF)]
   | "pipeline" =>
     let p : PipeIn := ⟨← prepInOfJson j, ← resultsOfJson (← fld j "results"), ← strF j "json"⟩
     let o := runPipeline p
@@ -194,9 +209,19 @@ def handle (j : Json) : R Json := do
       ("spec", jObj [("accepts", toJson (specAccepts p.prep)), ("fault", toJson p.results.hasFault),
                      ("model_ok", toJson (specPipeline p o)),
                      ("impl_ok", toJson (onImpl j prepOutOfJson (specPipeline p)))]),
-      ("scope", toJson true)]
-  | "regiongbk" =>
-    return jObj [("model", toJson (isRegionGbk (← strF j "name")))]
+      ("scope", toJson p.prep.WF)]
+  | "path" =>
+    -- the `posixpath` functions the model relies on, compared with the real ones
+    let a := (← strF j "a").toList
+    let b := (← strF j "b").toList
+    let sp := PosixPath.splitext a
+    return jObj [("model", jObj [
+      ("normpath", Json.str (String.ofList (PosixPath.normpath a))),
+      ("join", Json.str (String.ofList (PosixPath.join a b))),
+      ("abspath", Json.str (String.ofList (PosixPath.abspath a b))),
+      ("basename", Json.str (String.ofList (PosixPath.basename a))),
+      ("splitext", jArr [Json.str (String.ofList sp.1), Json.str (String.ofList sp.2)]),
+      ("isabs", toJson (PosixPath.isabs a))])]
   | k => throw s!"unknown kind {k}"
 
 end ASV.Drv.C20
